@@ -41,6 +41,8 @@ def _cdop(I, h):
         return "(DPause %s %s)" % (cnat(h["c"]), cZ(h["b"]))
     if h["o"] == "resume":
         return "(DResume %s %s)" % (cnat(h["c"]), cZ(h["b"]))
+    if h["o"] == "open":
+        return "(DOpen %s %s)" % (cnat(h["c"]), cZ(h["b"]))
     return "(%s %s %s %s %s)" % ("DCut" if h.get("x") else "DO", cnat(h["c"]), _cop(I, h), cZ(h["b"]),
                                  copt(h.get("d"), cZ, "Z"))
 
@@ -96,12 +98,18 @@ class C07(Prop):
                  "g_serve_defers_unsuball", "g_serve_queue_cap_is_buflen", "g_subs_subscribe_calls",
                  "g_subs_unsubscribe_calls", "g_subs_unsuball_calls", "g_subs_publish_calls", "g_safemap_locks",
                  "RouterHandler", "subscribers.", "safeMap", "trySendCtx", "SendIfMatch")
-    rule = ("60% deterministic scripts (2..5 connections on one RouterHandler, buflen 1..3, 8..31 client operations "
+    rule = ("45% deterministic scripts (2..5 connections on one RouterHandler, buflen 1..3, 8..31 client operations "
             "REQ/EVENT/CLOSE/COUNT/disconnect/pause-reader/resume-reader executed one at a time, about 7% of them "
-            "followed by an immediate disconnect without waiting for the reply, subscription ids "
+            "followed by an immediate disconnect without waiting for the reply, a paused reader that disconnects "
+            "mostly does so without reading what is pending, subscription ids "
             "from {a,b,c} shared by all connections, filters from the C02 universe incl. match-all and limits, every "
-            "publication with its own id), 40% concurrent histories (2..8 connections, buflen 1..4, each client "
-            "issuing 4..17 operations at its own pace, readers fast / jittery / bursty / stalled); every case ends "
+            "publication with its own id), 15% deterministic connection-churn scripts (same executor; a weighted "
+            "random walk over the same operations plus 'open': 2..5 connections exist from the start, 1..3 more "
+            "connect to the same router later, typically after subscribers that had stopped reading have left with "
+            "their deliveries unread), 40% concurrent histories (2..8 connections, buflen 1..4, each client "
+            "issuing 4..17 operations at its own pace, readers fast / jittery / bursty / stalled; 30% of them with a "
+            "second generation: stalled subscribers leave when the first generation's scripts are over and 1..3 new "
+            "connections connect and run scripts of their own); every case ends "
             "with a flush (sentinel publications until every open connection has received one) and a reading of the "
             "registry hooks; binary built with -race, a race report or a panic ends the child process and is "
             "recorded as a crash case; non-trivial = at least one live event reached a connection other than its "
@@ -215,7 +223,10 @@ class C07(Prop):
         d = {"det": 0, "conc": 0, "crash": 0, "operations": 0, "live_deliveries": 0, "cross_connection_deliveries": 0,
              "pauses": 0, "disconnects": 0, "disconnects_in_flight": 0, "replies_given_up": 0, "closes": 0,
              "re_reqs_of_an_open_id": 0, "same_sub_id_on_two_connections": 0,
-             "stalled_or_slow_readers": 0, "flush_publications": 0, "stuck": 0}
+             "stalled_or_slow_readers": 0, "flush_publications": 0, "stuck": 0,
+             "late_connections": 0, "late_connections_after_somebody_left": 0, "stalled_disconnects": 0,
+             "stalled_disconnects_with_publications_unread": 0, "late_connection_after_such_a_disconnect": 0,
+             "conc_with_second_generation": 0}
         for c in cases:
             d[c["k"]] = d.get(c["k"], 0) + 1
             if c["k"] == "crash":
@@ -225,9 +236,36 @@ class C07(Prop):
             d["cross_connection_deliveries"] += cross
             d["stuck"] += 1 if c.get("stuck") else 0
             open_ids = {}
+            left = 0
+            stale = 0
+            last_pause = {}
+            pubs_at = []
+            second = False
             for h in c.get("hops") or []:
-                d["operations"] += 1
                 o = h["o"]
+                if o == "open":
+                    d["late_connections"] += 1
+                    second = True
+                    if left:
+                        d["late_connections_after_somebody_left"] += 1
+                    if stale:
+                        d["late_connection_after_such_a_disconnect"] += 1
+                    continue
+                d["operations"] += 1
+                if o == "pause":
+                    last_pause[h["c"]] = h["b"]
+                elif o == "resume":
+                    last_pause.pop(h["c"], None)
+                elif o == "event" and h["e"]["pk"] != FLUSH_PK:
+                    pubs_at.append((h["c"], h["b"]))
+                elif o == "disc":
+                    left += 1
+                    if h.get("st"):
+                        d["stalled_disconnects"] += 1
+                        since = last_pause.get(h["c"], 0 if c["k"] == "conc" else None)
+                        if since is not None and any(pc != h["c"] and since < pb < h["b"] for pc, pb in pubs_at):
+                            d["stalled_disconnects_with_publications_unread"] += 1
+                            stale += 1
                 if h.get("x"):
                     d["disconnects_in_flight"] += 1
                     if o != "close" and h.get("d") is None:
@@ -250,6 +288,8 @@ class C07(Prop):
                 elif o == "event" and h["e"]["pk"] == FLUSH_PK:
                     d["flush_publications"] += 1
             d["stalled_or_slow_readers"] += sum(1 for r in c.get("readers") or [] if r.get("mode"))
+            if second and c["k"] == "conc":
+                d["conc_with_second_generation"] += 1
         return d
 
 
